@@ -29,6 +29,7 @@ def Spec.allowed : Callee → List Obs
   | .unpicklable => [.raisesChildProcessError, .raisesOther]
   | .afterSendDeath v => [.returns v]
   | .midSendDeath v => [.returns v, .raisesChildProcessError, .raisesOther]
+  | .spawns v => [.returns v]      -- "exactly what the function returns when run with the same arguments": run directly it returns v
 
 /-- translation of the model's outcome into an observation: "the object the child sent" is the callee's value / exception -/
 def observe (c : Callee) : Outcome → Obs
@@ -36,6 +37,7 @@ def observe (c : Callee) : Outcome → Obs
       | .ret v => .returns v
       | .afterSendDeath v => .returns v
       | .midSendDeath v => .returns v
+      | .spawns v => .returns v
       | _ => .returnsOther
   | .retForeign => .returnsOther
   | .raisedCallee => match c with
